@@ -27,13 +27,32 @@ const sigmaIPv4 = "0178 9afxX.+-g_"
 
 type digitCtx struct{ pre, alphabet string }
 
-// digitCtxs: structured contexts that reach the value boundaries of the parts
-// (255/256, 65535/65536, 2^24, 2^32, 2^63, 2^64) with windows restricted to the digits of one radix.
+const decDigits = "0123456789"
+const hexDigits = "0123456789abcdefABCDEF"
+const octDigits = "01234567"
+
+// digitCtxs: boundary neighbourhoods. The concrete leading digits put the number next to a
+// boundary of the IPv4 parser (2^8, 2^16, 2^24, 2^32 for the last part by position; 255/256
+// for the other parts; 2^63 and 2^64 where the number parser overflows); the trailing window
+// of K symbolic digits of the radix makes the solver range over every value within base^K of it.
 var digitCtxs = []digitCtx{
-	{"1.1.1.", "0123456789"}, {"1.1.", "0123456789"}, {"1.", "0123456789"}, {"", "0123456789"},
-	{"0x", "0123456789abcdefABCDEF"}, {"1.0x", "0123456789abcdefF"}, {"0", "01234567"}, {"1.1.0", "01234567"},
-	{"1.1.1.0x", "0123456789abcdef"}, {"1.", "0123456789."},
+	// decimal, one part
+	{"", decDigits}, {"2", decDigits}, {"25", decDigits}, {"655", decDigits}, {"6553", decDigits}, {"167772", decDigits}, {"1677721", decDigits},
+	{"42949672", decDigits}, {"429496729", decDigits}, {"92233720368547758", decDigits}, {"184467440737095516", decDigits},
+	// hex, one part
+	{"0x", hexDigits}, {"0xf", hexDigits}, {"0xff", hexDigits}, {"0xfff", hexDigits}, {"0xfffff", hexDigits}, {"0xfffffff", hexDigits}, {"0X1000000", hexDigits},
+	{"0x7ffffffffffffff", hexDigits}, {"0xfffffffffffffff", hexDigits},
+	// octal, one part
+	{"0", octDigits}, {"03", octDigits}, {"037", octDigits}, {"0377777777", octDigits}, {"07777777777777777777", octDigits}, {"017777777777777777777", octDigits},
+	// by part position: last part limit 256^(5-n), other parts 255
+	{"1.", decDigits}, {"1.1677721", decDigits}, {"1.0xfffff", hexDigits}, {"1.1.", decDigits}, {"1.1.655", decDigits}, {"1.1.0xfff", hexDigits},
+	{"1.1.1.", decDigits}, {"1.1.1.2", decDigits}, {"1.1.1.0x", hexDigits}, {"1.1.1.03", octDigits}, {"1.1.1.1.", decDigits},
+	// a symbolic non-last part
+	{"", "0123456789."}, {"25", "0123456789."}, {"0x", "0123456789afF."},
 }
+
+// digitSuffixes: what follows the symbolic digits (nothing, a trailing dot, further parts).
+var digitSuffixes = []string{"", ".", ".1", ".1.1.1"}
 
 func verifCheckIPv4Shape(u *Url) {
 	// an accepted special URL whose host the standard calls an IPv4 address serializes as four decimal octets
@@ -43,20 +62,7 @@ func verifCheckIPv4Shape(u *Url) {
 	}
 }
 
-// VerifC07HostIPv4: scheme://W/ for the six special schemes against the standard's host parser.
-func VerifC07HostIPv4() {
-	scheme := specialSchemes6[vnd.Pick(len(specialSchemes6))]
-	var w string
-	switch vnd.Pick(3) {
-	case 0:
-		w = vnd.StrOver(vnd.Len(vnd.Param("C07.KSigma", 5, 7)), sigmaIPv4)
-	case 1:
-		w = vnd.StrOver(vnd.Len(vnd.Param("C07.KAscii", 2, 3)), asciiHostBytes())
-	case 2:
-		dc := digitCtxs[vnd.Pick(len(digitCtxs))]
-		n := 1 + vnd.Pick(vnd.Param("C07.KDigits", 11, 22))
-		w = dc.pre + vnd.StrOver(n, dc.alphabet)
-	}
+func checkSpecialHost(scheme, w string) {
 	in := scheme + "://" + w + "/"
 	u, err := Parse(in)
 	vnd.Cover("parsed-as-ipv4", err == nil && u.IsIPv4())
@@ -66,6 +72,30 @@ func VerifC07HostIPv4() {
 	if err == nil {
 		verifCheckIPv4Shape(u)
 	}
+}
+
+// VerifC07HostIPv4Sigma: scheme://W/ with W over the IPv4 alphabet 0 1 7 8 9 a f x X . + - g _ and space
+// (enough for four parts, a fifth part, hex/octal shorthand, signs, a non-last part > 255).
+func VerifC07HostIPv4Sigma() {
+	schemes := []string{"http", "file"}
+	scheme := schemes[vnd.Pick(len(schemes))]
+	checkSpecialHost(scheme, vnd.StrOver(vnd.Len(vnd.Param("C07.KSigma", 4, 6)), sigmaIPv4))
+}
+
+// VerifC07HostIPv4Ascii: W over every ASCII byte except the host delimiters, all six special schemes.
+func VerifC07HostIPv4Ascii() {
+	scheme := specialSchemes6[vnd.Pick(len(specialSchemes6))]
+	checkSpecialHost(scheme, vnd.StrOver(vnd.Len(vnd.Param("C07.KAscii", 2, 3)), asciiHostBytes()))
+}
+
+// VerifC07HostIPv4Digits: boundary neighbourhoods x K symbolic digits x what follows.
+func VerifC07HostIPv4Digits() {
+	schemes := []string{"http", "file"}
+	scheme := schemes[vnd.Pick(len(schemes))]
+	dc := digitCtxs[vnd.Pick(len(digitCtxs))]
+	n := vnd.Len(vnd.Param("C07.KDigits", 2, 3))
+	suf := digitSuffixes[vnd.Pick(len(digitSuffixes))]
+	checkSpecialHost(scheme, dc.pre+vnd.StrOver(n, dc.alphabet)+suf)
 }
 
 // VerifC07HostOpaqueNever: hosts of non-special URLs are never reinterpreted as addresses.
@@ -98,6 +128,8 @@ func VerifC07HostOpaqueNever() {
 }
 
 func init() {
-	verifHarnesses["VerifC07HostIPv4"] = VerifC07HostIPv4
+	verifHarnesses["VerifC07HostIPv4Sigma"] = VerifC07HostIPv4Sigma
+	verifHarnesses["VerifC07HostIPv4Ascii"] = VerifC07HostIPv4Ascii
+	verifHarnesses["VerifC07HostIPv4Digits"] = VerifC07HostIPv4Digits
 	verifHarnesses["VerifC07HostOpaqueNever"] = VerifC07HostOpaqueNever
 }
